@@ -167,6 +167,12 @@ impl StructureMember {
         }? as *const u8;
 
         let offset = addr as isize - base_entity_addr as isize;
+        // the member must lie inside the bytes fetched for its parent (they may be fewer than the
+        // parent type needs, e.g. when the parent lives in a register)
+        let member_end = usize::try_from(offset).ok()?.checked_add(type_size)?;
+        if member_end > base_data.raw_data.len() {
+            return None;
+        }
         let new_in_debugee_addr = base_data
             .address
             .map(|addr| (addr as isize + offset) as usize);
